@@ -20,7 +20,7 @@ func body(r *simrt.Run, tier string) {
 	srv := simredis.New(r)
 	faulty := r.Tape.Bool()
 	if faulty {
-		srv.Fault = simredis.Policy(r, simredis.Rates{Latency: 50, DropRequest: 30, DropReply: 30, ResetBefore: 30, ResetAfter: 30, ErrReply: 30, Truncate: 30,
+		srv.Fault = simredis.Policy(r, simredis.Rates{Latency: 50, DropRequest: 30, DropReply: 30, ResetBefore: 30, ResetAfter: 30, ErrReply: 30, Truncate: 30, Deferred: 30,
 			ErrMsgs: []string{"LOADING Redis is loading the dataset in memory", "ERR boom"}})
 	}
 	execs := 0
